@@ -92,6 +92,27 @@ Proof.
     + destruct (bs =? 0) eqn:E0; [discriminate|]. inv Ee. cbn [bs_ok]. now rewrite E0.
 Qed.
 
+Lemma params_str_ok cd : cd_bs_checked cd = true -> cd_nulless_furibug_rejected cd = true -> forall ps sig,
+  params_nonneg ps = true -> encs_of_params cd ps = Some sig -> forallb str_ok sig = true.
+Proof.
+  intros Hb Hnf. induction ps as [|p ps IH]; intros sig Hnn H; cbn [encs_of_params] in H; [inv H; reflexivity|].
+  cbn [params_nonneg forallb] in Hnn. apply andb_true_iff in Hnn. destruct Hnn as [Hp Hnn].
+  destruct (enc_of_param cd p) as [e|] eqn:Ee; [|discriminate].
+  destruct (encs_of_params cd ps) as [es|]; [|discriminate]. inv H.
+  cbn [forallb]. rewrite (IH es Hnn eq_refl), andb_true_r.
+  destruct p as [c imm arg0|imm| | |c|sz m v a f]; cbn [enc_of_param] in Ee.
+  - destruct (zassoc c (cd_chars cd)) as [[size signed]|]; [|discriminate].
+    destruct (arg0 && negb ((1 <=? size) && (size <=? cd_arg0_maxsize cd))); [discriminate|]. inv Ee. reflexivity.
+  - inv Ee. reflexivity.
+  - inv Ee. reflexivity.
+  - inv Ee. reflexivity.
+  - destruct (zassoc c (cd_pad_chars cd)); [|discriminate]. inv Ee. reflexivity.
+  - rewrite Hb, Hnf in Ee. destruct sz as [len nl|bs|bs]; cbn [andb] in Ee.
+    + destruct (nl && f) eqn:E; [discriminate|]. inv Ee. cbn [str_ok]. now rewrite E.
+    + destruct (bs =? 0) eqn:E0; [discriminate|]. inv Ee. cbn [str_ok]. apply Z.leb_le in Hp. apply Z.eqb_neq in E0. apply Z.ltb_lt. lia.
+    + destruct (bs =? 0) eqn:E0; [discriminate|]. inv Ee. cbn [str_ok]. apply Z.leb_le in Hp. apply Z.eqb_neq in E0. apply Z.ltb_lt. lia.
+Qed.
+
 Section NoPanic.
 Variable sjis_enc : list Z -> option bytes.
 Variable cd : codec.
